@@ -458,6 +458,47 @@ theorem done_untouched_by_dispatch (e : EP) (m : Msg) : ∃ l, (dispatch e m).1.
   · exact ⟨[], by simp⟩
   · exact ⟨_, rfl⟩
 
+/-- asynchronous closes never touch the table -/
+theorem asyncs_slots (us : List Nat) (e : EP) : (us.foldl asyncClose e).slots = e.slots := by
+  induction us generalizing e with
+  | nil => rfl
+  | cons u r ih =>
+    simp only [List.foldl_cons]
+    rw [ih]
+    simp only [asyncClose]; split <;> rfl
+
+/-- once every scheduled asynchronous close has run, nothing is pending -/
+theorem asyncs_drain (us : List Nat) (e : EP) (hi : Inv e) (hall : ∀ h ∈ e.pending, h.uid ∈ us) :
+    (us.foldl asyncClose e).pending = [] ∧ Inv (us.foldl asyncClose e) ∧ (us.foldl asyncClose e).next = e.next := by
+  induction us generalizing e with
+  | nil =>
+    refine ⟨?_, hi, rfl⟩
+    cases hp : e.pending with
+    | nil => simpa using hp
+    | cons x r => have := hall x (by simp [hp]); simp at this
+  | cons u r ih =>
+    have hi'' := inv_async e u hi
+    have hnext : (asyncClose e u).next = e.next := by simp only [asyncClose]; split <;> rfl
+    have hall' : ∀ h ∈ (asyncClose e u).pending, h.uid ∈ r := by
+      intro h hh
+      simp only [asyncClose] at hh
+      split at hh
+      · have hm := List.mem_filter.mp hh
+        have := hall h hm.1
+        simp at this hm
+        rcases this with h1 | h1
+        · exact absurd h1 hm.2
+        · exact h1
+      · rename_i hnone
+        have hmem := hall h hh
+        simp at hmem
+        rcases hmem with h1 | h1
+        · have := List.find?_eq_none.mp hnone h hh
+          simp [h1] at this
+        · exact h1
+    obtain ⟨a, b, c⟩ := ih (asyncClose e u) hi'' hall'
+    exact ⟨by simpa using a, by simpa using b, by simp only [List.foldl_cons]; rw [c, hnext]⟩
+
 /-- **Progress after shutdown.**  Once the connection is shut down (`closeAll`) and the scheduled
     asynchronous closes have run, every handler registered before the shutdown has been closed
     exactly once: nothing is left in the table or pending. -/
@@ -467,50 +508,8 @@ theorem shutdown_closes_everything (e : EP) (hi : Inv e) :
     live e2.slots = [] ∧ e2.pending = [] ∧ ∀ u, u < e.next → occ u e2.done = 1 := by
   intro e1 e2
   have hi1 : Inv e1 := inv_closeAll e hi
-  have hslots : ∀ us e', e'.slots = e1.slots → ((us : List Nat).foldl asyncClose e').slots = e1.slots := by
-    intro us
-    induction us with
-    | nil => intro e' h; exact h
-    | cons u r ih =>
-      intro e' h
-      apply ih
-      simp only [asyncClose]; split <;> simpa using h
-  -- every uid still pending is in the list we fold over
-  have hpend : ∀ (us : List Nat) (e' : EP), Inv e' → (∀ h ∈ e'.pending, h.uid ∈ us) →
-      (us.foldl asyncClose e').pending = [] ∧ Inv (us.foldl asyncClose e') ∧ (us.foldl asyncClose e').next = e'.next := by
-    intro us
-    induction us with
-    | nil =>
-      intro e' hi' hall
-      refine ⟨?_, hi', rfl⟩
-      cases hp : e'.pending with
-      | nil => simpa using hp
-      | cons x r => have := hall x (by simp [hp]); simp at this
-    | cons u r ih =>
-      intro e' hi' hall
-      have hi'' := inv_async e' u hi'
-      have hnext : (asyncClose e' u).next = e'.next := by simp only [asyncClose]; split <;> rfl
-      have hall' : ∀ h ∈ (asyncClose e' u).pending, h.uid ∈ r := by
-        intro h hh
-        simp only [asyncClose] at hh
-        split at hh
-        · have hm := List.mem_filter.mp hh
-          have := hall h hm.1
-          simp at this hm
-          rcases this with h1 | h1
-          · exact absurd h1 hm.2
-          · exact h1
-        · rename_i hnone
-          have hmem := hall h hh
-          simp at hmem
-          rcases hmem with h1 | h1
-          · have := List.find?_eq_none.mp hnone h hh
-            simp [h1] at this
-          · exact h1
-      obtain ⟨a, b, c⟩ := ih (asyncClose e' u) hi'' hall'
-      exact ⟨by simpa using a, by simpa using b, by simp only [List.foldl_cons]; rw [c, hnext]⟩
-  obtain ⟨p1, p2, p3⟩ := hpend (e1.pending.map (·.uid)) e1 hi1 (fun h hh => List.mem_map.mpr ⟨h, hh, rfl⟩)
-  have hs : e2.slots = e1.slots := hslots _ e1 rfl
+  obtain ⟨p1, p2, p3⟩ := asyncs_drain (e1.pending.map (·.uid)) e1 hi1 (fun h hh => List.mem_map.mpr ⟨h, hh, rfl⟩)
+  have hs : e2.slots = e1.slots := asyncs_slots _ e1
   refine ⟨by rw [hs]; simp [e1, closeAll, live_map_none], p1, ?_⟩
   intro u hu
   have := p2.once u
